@@ -251,6 +251,7 @@ type Clause struct {
 type LoopContract struct {
 	Invariants []Clause
 	Decreases  []Clause
+	Assigns    []Clause // loop frame: everything else that existed before the loop is unchanged
 }
 
 type Contract struct {
@@ -358,7 +359,11 @@ func readContracts(path string) (map[string]*Contract, error) {
 				cur.Ensures = append(cur.Ensures, cls...)
 				lastClause = &cur.Ensures[len(cur.Ensures)-1]
 			case "assigns":
-				cur.Assigns = append(cur.Assigns, cls...)
+				if curLoop != nil {
+					curLoop.Assigns = append(curLoop.Assigns, cls...)
+				} else {
+					cur.Assigns = append(cur.Assigns, cls...)
+				}
 			case "invariant":
 				if curLoop == nil {
 					return nil, fmt.Errorf("%s:%d: invariant outside loop", path, ln+1)
